@@ -7,6 +7,7 @@ import (
 	"math"
 	"math/big"
 	"sort"
+	"strings"
 	"sync/atomic"
 	"testing"
 	"time"
@@ -235,7 +236,7 @@ func TestRecycleKeepsRecoveredNode(t *testing.T) {
 			recovers[i] = rapid.Bool().Draw(t, "recovers")
 		}
 		recovers[rapid.IntRange(0, nn-1).Draw(t, "oneRecoversForSure")] = true
-		for _, reloaded := range []string{"no", "changed", "cleared-and-loaded-again"} { // every variant in every case
+		for _, reloaded := range []string{"no", "changed", "cleared-and-loaded-again", "no, active recovery whose probes fail"} { // every variant in every case
 			recycleOnce(t, c, nn, recovers, reloaded)
 		}
 		c.NonTrivial()
@@ -248,6 +249,12 @@ func recycleOnce(t *rapid.T, c *hx.Case, nn int, recovers []bool, reloaded strin
 		hx.Reset(hx.Epoch)
 		rule := &outlier.Rule{Rule: &cb.Rule{Id: res, Resource: res, Strategy: cb.ErrorCount, RetryTimeoutMs: 10, MinRequestAmount: 1, StatIntervalMs: 1000, Threshold: 1},
 			EnableActiveRecovery: false, MaxEjectionPercent: 1, RecoveryIntervalMs: 4000, MaxRecoveryAttempts: 1, RecycleIntervalS: 1}
+		var probesOK int32 // active probes fail until the variant is over, then succeed so the retry tasks end
+		if strings.HasPrefix(reloaded, "no, active") {
+			rule.EnableActiveRecovery, rule.RecoveryIntervalMs, rule.MaxRecoveryAttempts = true, 150, 2
+			rule.RecoveryCheckFunc = func(string) bool { return atomic.LoadInt32(&probesOK) == 1 }
+			defer func() { atomic.StoreInt32(&probesOK, 1); time.Sleep(400 * time.Millisecond) }()
+		}
 		if _, err := outlier.LoadRuleOfResource(res, rule); err != nil {
 			t.Fatal(err)
 		}
